@@ -166,6 +166,9 @@ pub enum PublicInputError {
     #[error("invalid number of segments")]
     InvalidSegments,
 
+    #[error("main page too short or cells at unexpected addresses")]
+    MainPageInvalid,
+
     #[error("dynamic params missing")]
     DynamicParamsMissing,
 
@@ -263,6 +266,9 @@ pub enum PublicInputError {
 
     #[error("invalid number of segments")]
     InvalidSegments,
+
+    #[error("main page too short or cells at unexpected addresses")]
+    MainPageInvalid,
 
     #[error("dynamic params missing")]
     DynamicParamsMissing,
